@@ -430,7 +430,7 @@ pub fn words_to_bytes(n: usize) -> usize {
 /// May panic if `n + 7 > usize::MAX`.
 #[inline]
 pub fn bytes_to_words(n: usize) -> usize {
-    (n + WORD_BYTES - 1) / WORD_BYTES
+    (n + (WORD_BYTES - 1)) / WORD_BYTES
 }
 
 /// Rounds `n` up to the next multiple of 8.
@@ -489,7 +489,7 @@ pub fn words_to_bits(n: usize) -> usize {
 /// May panic if `n + 63 > usize::MAX`.
 #[inline]
 pub fn bits_to_words(n: usize) -> usize {
-    (n + WORD_BITS - 1) / WORD_BITS
+    (n + (WORD_BITS - 1)) / WORD_BITS
 }
 
 /// Rounds `n` up to the next multiple of 64.
